@@ -90,7 +90,8 @@ Inductive label :=
 | Purge
 | LoaderTurn
 | PersistTick (persistent_store : bool)
-| LoaderRace (id : N) (persistent : bool).   (* a loader turn with a push landing inside it, see q_loader_race *)
+| LoaderRace (id : N) (persistent : bool)    (* a loader turn with a push landing inside it, see q_loader_race *)
+| Restart.                                   (* graceful stop at quiescence and boot, see q_restart *)
 
 Inductive out := ONone | OPop (r : option N) | OPurge (n : Z).
 
@@ -195,6 +196,23 @@ Definition q_loader_race (c : qcfg) (s : qstate) (id : N) (p : bool) : qstate :=
         (last ld (lastStored s1)) (last ld (lastMem s1)) (qlen s1) (allids s1)
   else s1.
 
+(* Restart: the broker stops gracefully (the persistent store writes out what is pending), the queue object
+   with its ring, counters and swap state is gone, the transient store is wiped at boot (server.go removes
+   "*.transient"), and a durable queue is rebuilt by Queue.LoadFromMsgStorage on a fresh object over the same
+   persistent store:
+     iterated := IterateByQueueFromMsgID(name, 0, maxMessagesInRAM, push into the ring; lastStored = lastMem = id)
+     if ring length >= maxMessagesInRAM { swappedToDisk = true }
+     queueLength = iterated >= maxMessagesInRAM ? GetQueueLength (KeysByPrefixCount) : iterated
+   A queue that is not durable does not come back; the model gives it a fresh empty state. *)
+Definition q_restart (c : qcfg) (s : qstate) : qstate :=
+  if durable c then
+    let fl := s_flushed (store_persist (pst s)) in
+    let ld := store_iter (mkStore [] [] [] fl) 0 (maxram c) in
+    let n := N.of_nat (length ld) in
+    mkQ ld (mkStore [] [] [] fl) store_empty (maxram c <=? n) (last ld 0) (last ld 0)
+        (if maxram c <=? n then Z.of_nat (length fl) else Z.of_N n) (allids s)
+  else mkQ [] store_empty store_empty false 0 0 0%Z (allids s).
+
 Definition q_step (c : qcfg) (s : qstate) (lab : label) : qstate * out :=
   match lab with
   | Push id p => (q_push c s id p, ONone)
@@ -205,6 +223,7 @@ Definition q_step (c : qcfg) (s : qstate) (lab : label) : qstate * out :=
   | LoaderTurn => (q_loader c s, ONone)
   | PersistTick b => (q_tick s b, ONone)
   | LoaderRace id p => (q_loader_race c s id p, ONone)
+  | Restart => (q_restart c s, ONone)
   end.
 
 Fixpoint q_run (c : qcfg) (s : qstate) (ls : list label) : qstate * list out :=
@@ -228,6 +247,7 @@ Definition spec_step (l : list N) (lab : label) : list N * out :=
   | LoaderTurn => (l, ONone)
   | PersistTick _ => (l, ONone)
   | LoaderRace id _ => (l ++ [id], ONone)
+  | Restart => (l, ONone)   (* not meaningful on the bare list: see [gspec_run] for label lists with restarts *)
   end.
 
 Fixpoint spec_run (l : list N) (ls : list label) : list N * list out :=
@@ -276,6 +296,14 @@ Record ghost := mkGhost { g_next : N; g_list : list N; g_outst : list N; g_pers 
 
 Definition ghost_init : ghost := mkGhost 1 [] [] [].
 
+Fixpoint sortN (l : list N) : list N :=
+  match l with [] => [] | h :: t => insert_sorted h (sortN t) end.
+
+(* what an unlimited durable queue holds after a restart: the persistent messages that were ready or delivered
+   and unsettled (connections are gone, their deliveries return), in id order *)
+Definition restart_list (g : ghost) : list N :=
+  sortN (filter (fun k => inb k (g_pers g)) (g_list g ++ g_outst g)).
+
 Definition ghost_step (g : ghost) (lab : label) : ghost :=
   match lab with
   | Push id p => mkGhost (id + 1) (g_list g ++ [id]) (g_outst g) (if p then id :: g_pers g else g_pers g)
@@ -288,6 +316,7 @@ Definition ghost_step (g : ghost) (lab : label) : ghost :=
   | Purge => mkGhost (g_next g) [] (g_outst g) (g_pers g)
   | LoaderTurn | PersistTick _ => g
   | LoaderRace id p => mkGhost (id + 1) (g_list g ++ [id]) (g_outst g) (if p then id :: g_pers g else g_pers g)
+  | Restart => mkGhost (g_next g) (restart_list g) [] (g_pers g)
   end.
 
 (* a message is settled with the persistence flag it was published with (it is the same message) *)
@@ -324,6 +353,7 @@ Definition hyp_step (c : qcfg) (s : qstate) (lab : label) : bool :=
   | Purge => negb (swapped s)
   | Pop => match mem s with [] => match abs_disk s with [] => true | _ => false end | _ => true end
   | LoaderRace _ _ => false
+  | Restart => false        (* label lists with restarts: [hyp_r_step] below *)
   | _ => true
   end.
 
@@ -372,3 +402,42 @@ Fixpoint hyps_safety_from (c : qcfg) (s : qstate) (ls : list label) : bool :=
 
 Definition no_findings_safety (c : qcfg) (ls : list label) : bool :=
   (2 <=? maxram c) && (maxram c <? W64) && hyps_safety_from c q_init ls.
+
+(* ---- label lists with restarts ------------------------------------------------------------------
+   The specification is the ghost run: the unlimited list with its delivered-unsettled set; a Restart
+   replaces the list by [restart_list].  Hypotheses as before, plus, for the store to hold exactly what
+   must come back: the queue is durable, and a purge happens only when the persistent store has no pending
+   add/update (open finding F41: such entries are written after the purge and come back at the next
+   restart) and no persistent message is delivered-unsettled (Purge deletes the store entries of unsettled
+   deliveries too: they do not come back). *)
+Definition gspec_step (g : ghost) (lab : label) : ghost * out :=
+  (ghost_step g lab, match lab with Restart => ONone | _ => snd (spec_step (g_list g) lab) end).
+
+Fixpoint gspec_run (g : ghost) (ls : list label) : ghost * list out :=
+  match ls with
+  | [] => (g, [])
+  | lab :: t =>
+    let '(g1, o) := gspec_step g lab in
+    let '(g2, os) := gspec_run g1 t in
+    (g2, o :: os)
+  end.
+
+Definition isnil {A} (l : list A) : bool := match l with [] => true | _ => false end.
+
+Definition hyp_r_step (c : qcfg) (s : qstate) (g : ghost) (lab : label) : bool :=
+  match lab with
+  | Restart => durable c
+  | Purge => hyp_step c s Purge &&
+             (negb (durable c) ||
+              (isnil (s_add (pst s)) && isnil (s_upd (pst s)) && forallb (fun k => negb (inb k (g_pers g))) (g_outst g)))
+  | _ => hyp_step c s lab
+  end.
+
+Fixpoint hyps_r_from (c : qcfg) (s : qstate) (g : ghost) (ls : list label) : bool :=
+  match ls with
+  | [] => true
+  | lab :: t => hyp_r_step c s g lab && hyps_r_from c (fst (q_step c s lab)) (ghost_step g lab) t
+  end.
+
+Definition no_findings_restart (c : qcfg) (ls : list label) : bool :=
+  (2 <=? maxram c) && (maxram c <? W64) && hyps_r_from c q_init ghost_init ls.
